@@ -1,12 +1,15 @@
 #!/bin/bash
-# usage: confirm_seed.sh <ID> <a|b> [CHECK_ID]  — confirms a seed in /tmp/seed/<ID> and runs ./check against it
+# usage: [VERIF_DIR=/tmp/lead/vsnap] confirm_seed.sh <ID> <letter> [CHECK_ID]
+# confirms a seed in /tmp/seed/<ID> (demo clean/patched, pinned tests with the patch) and runs ./check against it
 ID=$1; X=$2; CK=${3:-$1}
-W=/tmp/seed/$ID
-unset PYTHONDONTWRITEBYTECODE; export PYTHONPYCACHEPREFIX=/verif/build/pycache
-cd $W && git checkout -q -- . 
-timeout 900 bash seed_$X/demo.sh $W >/tmp/lead/demo_clean_$ID.log 2>&1; echo "demo clean exit: $?"
+W=/tmp/seed/$ID; V=${VERIF_DIR:-/verif}
+mkdir -p /tmp/lead
+unset PYTHONDONTWRITEBYTECODE; export PYTHONPYCACHEPREFIX=$V/build/pycache
+cd $W && git checkout -q -- .
+timeout 1200 bash seed_$X/demo.sh $W >/tmp/lead/demo_clean_$ID.log 2>&1; echo "demo clean exit: $?"
 git apply seed_$X/patch.diff || { echo "patch does not apply"; exit 2; }
-timeout 900 bash seed_$X/demo.sh $W >/tmp/lead/demo_patched_$ID.log 2>&1; echo "demo patched exit: $?"
-(cd $W && PYTHONPATH=$W timeout 2400 /venv/bin/python -m pytest -q -p no:cacheprovider --timeout=900 --continue-on-collection-errors 2>&1 | tail -1)
-cd /verif && EMBOSS_REPO=$W timeout 2400 ./check $CK 2>&1 | grep -E "VIOLATION|KNOWN-FINDING|detail|$CK quick" | cut -c1-300
+timeout 1200 bash seed_$X/demo.sh $W >/tmp/lead/demo_patched_$ID.log 2>&1; echo "demo patched exit: $?"
+if [ -z "$SKIP_TESTS" ]; then (cd $W && PYTHONPATH=$W timeout 2400 /venv/bin/python -m pytest -q -p no:cacheprovider --timeout=900 --continue-on-collection-errors 2>&1 | tail -1); fi
+cd $V && EMBOSS_REPO=$W timeout 3000 ./check $CK > /tmp/lead/check_${ID}_$X.log 2>&1; echo "check exit: $?"
+grep -E "VIOLATION|KNOWN-FINDING|detail|$CK quick" /tmp/lead/check_${ID}_$X.log | cut -c1-400 | head -20
 git -C $W checkout -q -- .
